@@ -120,7 +120,7 @@ def gen_trace(recipe):
       d = int(rng.integers(1, 9))
       k = int(rng.integers(0, 3)) if d > 1 else 0
       Vs, s2 = givens_product(rng, d, k) if d > 1 else (np.array([[1]], dtype=object), 1)
-      kind = str(rng.choice(['pd', 'psd_singular', 'indefinite', 'near_psd_tol', 'outside_tol', 'diag', 'nonsym', 'wide']))
+      kind = str(rng.choice(['pd', 'psd_singular', 'indefinite', 'near_psd_tol', 'outside_tol', 'diag', 'diag_near_psd', 'nonsym', 'wide']))
       mag = float(2.0 ** int(rng.integers(-20, 21)))
       w = [float(rng.integers(1, 2000)) * mag for _ in range(d)]
       tol = None
@@ -140,6 +140,14 @@ def gen_trace(recipe):
         Vs, s2 = np.array([[1 if i == j else 0 for j in range(d)] for i in range(d)], dtype=object), 1
         if rng.random() < 0.5:
           w[int(rng.integers(d))] *= -1.0
+      elif kind == 'diag_near_psd':
+        # a DIAGONAL matrix that is PSD up to rounding only: one entry slightly negative, inside the (default or explicit) tolerance
+        Vs, s2 = np.array([[1 if i == j else 0 for j in range(d)] for i in range(d)], dtype=object), 1
+        if rng.random() < 0.5:
+          tol = float(max(w)) * 2.0 ** -10
+          w[int(rng.integers(d))] = -tol / 16.0
+        else:
+          w[int(rng.integers(d))] = -float(max(w)) * 2.0 ** -60        # far inside the default tolerance d * eps * max
       elif kind == 'nonsym':
         nonsym = d > 1
       elif kind == 'wide':
